@@ -208,3 +208,25 @@ Qed.
 
 Lemma acc_of_ext ng r r' v v' : (r == r')%Q -> (v == v')%Q -> acc_of ng r v = acc_of ng r' v'.
 Proof. intros Hr Hv. unfold acc_of. now rewrite Hr, Hv. Qed.
+
+(* the decision is invariant under scaling N and the cut position together
+   (trailing zero digits shifted into the mantissa do not change it) *)
+Lemma inc_dec_scale d N2 P2 T s : 0 < T -> 0 < P2 -> 0 <= N2 ->
+  inc_dec d ((N2 * T) / (P2 * T)) ((N2 * T) mod (P2 * T)) (P2 * T) s =
+  inc_dec d (N2 / P2) (N2 mod P2) P2 s.
+Proof.
+  intros HT HP HN.
+  rewrite Z.div_mul_cancel_r by lia. rewrite Z.mul_mod_distr_r by lia.
+  pose proof (Z.mod_pos_bound N2 P2 HP) as Hr. set (r := N2 mod P2) in *. set (M := N2 / P2).
+  unfold inc_dec.
+  assert (E0 : (r * T =? 0) = (r =? 0)).
+  { destruct (Z.eqb_spec (r * T) 0), (Z.eqb_spec r 0); try reflexivity; exfalso; nia. }
+  rewrite E0. destruct ((r =? 0) && negb s); [reflexivity|].
+  destruct d; try reflexivity.
+  - assert (E1 : (P2 * T <? 2 * (r * T)) = (P2 <? 2 * r)).
+    { destruct (Z.ltb_spec (P2 * T) (2 * (r * T))), (Z.ltb_spec P2 (2 * r)); try reflexivity; exfalso; nia. }
+    assert (E2 : (2 * (r * T) =? P2 * T) = (2 * r =? P2)).
+    { destruct (Z.eqb_spec (2 * (r * T)) (P2 * T)), (Z.eqb_spec (2 * r) P2); try reflexivity; exfalso; nia. }
+    now rewrite E1, E2.
+  - destruct (Z.leb_spec (P2 * T) (2 * (r * T))), (Z.leb_spec P2 (2 * r)); try reflexivity; exfalso; nia.
+Qed.
